@@ -146,3 +146,7 @@ package middleware
 
 //@ func genRequestID
 //@ nomod
+
+// the loader is wired with exactly the store, period, refresher and validator it was given
+//@ prop C01 C12
+//@ scan[stored-loader-fields-written-only-by-its-constructor] field-writers storedSessionLoader.* pkg/middleware.NewStoredSessionLoader
